@@ -155,7 +155,7 @@ func init() {
 		Bounds: "EditMultisig of a 3-owner wallet to 2 weights and 2..4 addresses (weights, threshold symbolic), then a Send signed by the last listed owner"}
 	add("C05", txAssumptions, msigEdit)
 	add("C07", txAssumptions, msigEdit)
-	add("C05", txAssumptions, tier("thorough", msig3)...)
+	add("C05", txAssumptions, tier("quick", msig3)...) // cheap (316 paths, 4 s): a duplicate signer separated by another signature needs 3 signatures (seed C05-h)
 	add("C07", txAssumptions, tier("thorough", msig)...)
 	mint := HSpec{Pkg: txPkg, Func: "VerifHarness_MintToken_Deliver", Configs: []map[string]int64{
 		cfg("coin", 3, "pool10", 1, "lp10", 1, "concretePool", 1, "concretePrices", 1, "signerB", 1),
@@ -258,25 +258,25 @@ func init() {
 	// ---------------------------------------------------------- C09 state modules / C08 map order
 	{
 		var cs, cs8 []map[string]int64
-		for step := 0; step <= 7; step++ {
+		for step := 0; step <= 8; step++ {
 			for restart := 0; restart <= 1; restart++ {
 				cs = append(cs, cfg("step", step, "restart", restart))
 			}
 			cs8 = append(cs8, cfg("step", step, "concrete", 1))
 		}
 		add("C09", append([]string{
-			"state modules: every module is populated through its own mutators (3 accounts, 2 coins, a multisig, 2 candidates x 3 stakes, 2 validators, 3 frozen items, 2 waitlist entries, halts, update votes, 2 used checks, 2 pools, 2 orders), committed, modified by one of 8 second-block steps (the last one replaces three candidates' public keys, which puts three entries into the block list) (optionally in a restarted process) and committed again; after each commit a fresh State over the same database must answer every getter like the continuing one",
+			"state modules: every module is populated through its own mutators (3 accounts, 2 coins, a multisig, 2 candidates x 3 stakes, 2 validators, 3 frozen items, 2 waitlist entries, halts, update votes, 2 used checks, 2 pools, 2 orders), committed, modified by one of 9 second-block steps (among them: three candidates' public keys replaced, which puts three entries into the block list; a reward update that leaves the safe reward as it was) (optionally in a restarted process) and committed again; after each commit a fresh State over the same database must answer every getter like the continuing one",
 			"balances, frozen funds, waitlist, coin volume/reserve, slashed are symbolic; stakes, pool reserves and order volumes are concrete (they drive control flow / float-encoded keys)",
 			"IAVL pruning (DeleteVersion) and the paged on-disk order index under long interleavings are outside",
 		}, commonAssumptions...), HSpec{Pkg: "coreV2/state", Func: "VerifHarness_C09_StateRestart", Tier: "quick", Configs: cs,
-			Bounds: "two committed blocks over the universe above; 8 kinds of second-block activity x restart or not"})
+			Bounds: "two committed blocks over the universe above; 9 kinds of second-block activity x restart or not"})
 		add("C08", append([]string{
 			"reduction: block execution starts no goroutines and reads no clock into state; the remaining source of cross-instance divergence examined here is Go's randomised map iteration",
 			"every map range met while committing is explored in every order (all permutations up to 3 entries, rotations and reversal beyond), one deviating site per path (others in default order); the ordered sequence of database writes (store, key, value) must be identical across orders",
 			"data is concrete in this mode (write traces are compared textually); separate processes with different GOMAXPROCS/GOGC are not run; unstable-sort ties, pointer-order and third-party nondeterminism are outside",
 			"a violation is confirmed natively by running the same harness repeatedly and observing differing IAVL root hashes",
 		}, commonAssumptions...), HSpec{Pkg: "coreV2/state", Func: "VerifHarness_C09_StateRestart", Tier: "quick", Configs: cs8, Opts: gosym.HarnessOpts{MapOrders: true},
-			Bounds: "two State.Commit calls over the populated universe, 8 kinds of second-block activity; every iteration order at every map-range site, one deviating site per path"})
+			Bounds: "two State.Commit calls over the populated universe, 9 kinds of second-block activity; every iteration order at every map-range site, one deviating site per path"})
 	}
 
 	// ---------------------------------------------------------- C10 commit crash (application-level writes)
@@ -395,10 +395,10 @@ func init() {
 			"custom-coin stakes are outside the registered bound",
 		}, txAssumptions...)
 		sc := func(kv ...interface{}) map[string]int64 { return cfg(append([]interface{}{"concretePrices", 1}, kv...)...) }
-		stq := HSpec{Pkg: txPkg, Func: "VerifHarness_Stake_Deliver", Tier: "quick", Configs: []map[string]int64{sc("kind", 0), sc("kind", 1), sc("kind", 2), sc("kind", 3), sc("kind", 2, "maturedBatch", 1), sc("kind", 4), sc("kind", 0, "waitlisted", 1), sc("kind", 5), sc("kind", 5, "foreign", 1), sc("kind", 6)},
+		stq := HSpec{Pkg: txPkg, Func: "VerifHarness_Stake_Deliver", Tier: "quick", Configs: []map[string]int64{sc("kind", 0), sc("kind", 1), sc("kind", 2), sc("kind", 3), sc("kind", 2, "maturedBatch", 1), sc("kind", 4), sc("kind", 0, "waitlisted", 1), sc("kind", 1, "waitlisted", 1), sc("kind", 5), sc("kind", 5, "foreign", 1), sc("kind", 6)},
 			Bounds: "one CheckTx+DeliverTx of Unbond / MoveStake / Lock / Delegate / Unbond-under-LockStake / SetCandidateOn / SetCandidateOff by A; value, stake, balances, jail height symbolic"}
-		stt := HSpec{Pkg: txPkg, Func: "VerifHarness_Stake_Deliver", Tier: "thorough", Configs: []map[string]int64{sc("kind", 1, "waitlisted", 1), cfg("kind", 0), cfg("kind", 1), cfg("kind", 3)},
-			Bounds: "waitlisted move; symbolic price table"}
+		stt := HSpec{Pkg: txPkg, Func: "VerifHarness_Stake_Deliver", Tier: "thorough", Configs: []map[string]int64{cfg("kind", 0), cfg("kind", 1), cfg("kind", 3)},
+			Bounds: "symbolic price table"}
 		for _, id := range []string{"C16", "C18", "C01", "C02", "C03", "C05", "C06", "C07"} {
 			add(id, sa, stq)
 		}
